@@ -2,7 +2,7 @@
 //! names, sealing and file boundaries do not exist here: erasure is by construction.
 
 use super::ast::*;
-use crate::hmodel::{self, ParseVerdict};
+use crate::hmodel;
 use im::OrdMap;
 use std::rc::Rc;
 
@@ -166,120 +166,65 @@ enum HostOut<'a> {
     Undetermined(String),
 }
 
-struct Io<'s> {
-    stdin: &'s [u8],
-    pos: usize,
-    out: Vec<u8>,
+type Io<'s> = hmodel::HostIo<'s>;
+
+/// Host symbol of an operation (what the role is called at the host boundary).
+pub fn host_name(op: HostOp) -> String {
+    match op {
+        | HostOp::IntArith(t, o) => format!("{}_{}", t.pkg(), o.name()),
+        | HostOp::IntCmp(t, o) => format!("{}_{}_branch", t.pkg(), o.name()),
+        | HostOp::IntToStr(t) => format!("{}_to_string", t.pkg()),
+        | HostOp::F64Arith(o) => format!("float64_{}", o.name()),
+        | HostOp::F64Cmp(o) => format!("float64_{}_branch", o.name()),
+        | HostOp::F64ToStr => "float64_to_string".into(),
+        | HostOp::StrAppend => "str_append".into(),
+        | HostOp::StrLen => "str_scalar_length".into(),
+        | HostOp::StrByteLen => "str_byte_length".into(),
+        | HostOp::StrEq => "str_eq_branch".into(),
+        | HostOp::StrGet => "str_get_branch".into(),
+        | HostOp::StrSplitAt => "str_split_at_branch".into(),
+        | HostOp::CharToStr => "char_to_str".into(),
+        | HostOp::CharCode => "char_codepoint".into(),
+        | HostOp::CharFromCode => "char_from_codepoint_branch".into(),
+        | HostOp::ParseInt => "str_parse_int_branch".into(),
+        | HostOp::WriteLine => "write_line".into(),
+        | HostOp::WriteStr => "write_str".into(),
+        | HostOp::ReadLine => "read_line".into(),
+        | HostOp::ReadInt => "read_line_as_int_branch".into(),
+        | HostOp::Exit => "exit".into(),
+    }
 }
 
-impl Io<'_> {
-    /// the interpreter's line discipline: up to and including '\n', strip one "\n" or "\r\n"
-    fn line(&mut self) -> Result<String, String> {
-        let rest = &self.stdin[self.pos..];
-        let end = rest.iter().position(|b| *b == b'\n').map(|i| i + 1).unwrap_or(rest.len());
-        let mut line = rest[..end].to_vec();
-        self.pos += end;
-        if line.last() == Some(&b'\n') {
-            line.pop();
-            if line.last() == Some(&b'\r') {
-                line.pop();
-            }
-        }
-        String::from_utf8(line).map_err(|_| "invalid UTF-8 on stdin (outside the modelled domain)".to_string())
+fn to_hv(v: &RV<'_>) -> hmodel::HV {
+    match v {
+        | RV::Int(t, n) => hmodel::HV::Int(*t, *n),
+        | RV::F64(b) => hmodel::HV::F64(*b),
+        | RV::Str(s) => hmodel::HV::Str((**s).clone()),
+        | RV::Char(c) => hmodel::HV::Char(*c),
+        | RV::Unit => hmodel::HV::Unit,
+        | _ => hmodel::HV::Opaque,
+    }
+}
+
+fn from_hv<'a>(v: hmodel::HV) -> RV<'a> {
+    match v {
+        | hmodel::HV::Int(t, n) => RV::Int(t, n),
+        | hmodel::HV::F64(b) => RV::F64(b),
+        | hmodel::HV::F32(b) => RV::F64(f32::from_bits(b) as f64 as u64),
+        | hmodel::HV::Str(s) => RV::Str(Rc::new(s)),
+        | hmodel::HV::Char(c) => RV::Char(c),
+        | hmodel::HV::Unit | hmodel::HV::Opaque => RV::Unit,
     }
 }
 
 fn host<'a>(op: HostOp, args: Vec<RV<'a>>, io: &mut Io) -> Result<HostOut<'a>, String> {
-    use HostOut::*;
-    let int = |v: &RV<'a>| match v {
-        | RV::Int(_, n) => Ok(*n),
-        | o => Err(format!("host {op:?}: expected integer, got {o:?}")),
-    };
-    let st = |v: &RV<'a>| match v {
-        | RV::Str(s) => Ok(s.clone()),
-        | o => Err(format!("host {op:?}: expected string, got {o:?}")),
-    };
-    let fl = |v: &RV<'a>| match v {
-        | RV::F64(b) => Ok(*b),
-        | o => Err(format!("host {op:?}: expected float, got {o:?}")),
-    };
-    let ch = |v: &RV<'a>| match v {
-        | RV::Char(c) => Ok(*c),
-        | o => Err(format!("host {op:?}: expected char, got {o:?}")),
-    };
-    let i64v = |n: i128| RV::Int(hmodel::IntTy::I64, n);
-    Ok(match op {
-        | HostOp::IntArith(t, o) => match hmodel::int_arith(t, o, int(&args[0])?, int(&args[1])?) {
-            | Some(r) => Ret(RV::Int(t, r)),
-            | None => Trap,
-        },
-        | HostOp::IntCmp(_, o) => {
-            let c = hmodel::int_cmp(o, int(&args[0])?, int(&args[1])?);
-            Select(args[if c { 2 } else { 3 }].clone(), vec![])
-        }
-        | HostOp::IntToStr(_) => Ret(RV::Str(Rc::new(hmodel::int_to_string(int(&args[0])?)))),
-        | HostOp::F64Arith(o) => Ret(RV::F64(hmodel::f64_arith(o, fl(&args[0])?, fl(&args[1])?))),
-        | HostOp::F64Cmp(o) => {
-            let c = hmodel::f64_cmp(o, fl(&args[0])?, fl(&args[1])?);
-            Select(args[if c { 2 } else { 3 }].clone(), vec![])
-        }
-        | HostOp::F64ToStr => {
-            // any exact rendering is allowed by the contract; generated programs never print floats
-            // directly (they compare them), so this is only reached through `Undetermined`.
-            Undetermined("float rendering has many valid spellings".into())
-        }
-        | HostOp::StrAppend => {
-            let mut s = (*st(&args[0])?).clone();
-            s.push_str(&st(&args[1])?);
-            Ret(RV::Str(Rc::new(s)))
-        }
-        | HostOp::StrLen => Ret(i64v(hmodel::str_scalar_len(&st(&args[0])?))),
-        | HostOp::StrByteLen => Ret(i64v(hmodel::str_byte_len(&st(&args[0])?))),
-        | HostOp::StrEq => {
-            let c = st(&args[0])? == st(&args[1])?;
-            Select(args[if c { 2 } else { 3 }].clone(), vec![])
-        }
-        | HostOp::StrGet => match hmodel::str_get(&st(&args[0])?, int(&args[1])?) {
-            | None => Select(args[2].clone(), vec![]),
-            | Some(c) => Select(args[3].clone(), vec![RV::Char(c)]),
-        },
-        | HostOp::StrSplitAt => match hmodel::str_split_at(&st(&args[0])?, int(&args[1])?) {
-            | None => Select(args[2].clone(), vec![]),
-            | Some((a, b)) => Select(args[3].clone(), vec![RV::Str(Rc::new(a)), RV::Str(Rc::new(b))]),
-        },
-        | HostOp::CharToStr => Ret(RV::Str(Rc::new(ch(&args[0])?.to_string()))),
-        | HostOp::CharCode => Ret(i64v(ch(&args[0])? as u32 as i128)),
-        | HostOp::CharFromCode => match hmodel::char_from_codepoint(int(&args[0])?) {
-            | None => Select(args[1].clone(), vec![]),
-            | Some(c) => Select(args[2].clone(), vec![RV::Char(c)]),
-        },
-        | HostOp::ParseInt => match hmodel::parse_int_contract(&st(&args[0])?) {
-            | ParseVerdict::None => Select(args[1].clone(), vec![]),
-            | ParseVerdict::Some(n) => Select(args[2].clone(), vec![i64v(n as i128)]),
-            | ParseVerdict::Either(_) => Undetermined("parse_int on a non-canonical numeral".into()),
-        },
-        | HostOp::WriteLine => {
-            io.out.extend_from_slice(st(&args[0])?.as_bytes());
-            io.out.push(b'\n');
-            Select(args[1].clone(), vec![])
-        }
-        | HostOp::WriteStr => {
-            io.out.extend_from_slice(st(&args[0])?.as_bytes());
-            Select(args[1].clone(), vec![])
-        }
-        | HostOp::ReadLine => {
-            let line = io.line()?;
-            Select(args[0].clone(), vec![RV::Str(Rc::new(line))])
-        }
-        | HostOp::ReadInt => {
-            let line = io.line()?;
-            match hmodel::parse_int_contract(&line) {
-                | ParseVerdict::None => Select(args[0].clone(), vec![]),
-                | ParseVerdict::Some(n) => Select(args[1].clone(), vec![i64v(n as i128)]),
-                | ParseVerdict::Either(_) => Undetermined("read_int on a non-canonical numeral".into()),
-            }
-        }
-        | HostOp::Exit => Exit(int(&args[0])? as i64 as i32),
+    let hargs: Vec<hmodel::HV> = args.iter().map(to_hv).collect();
+    Ok(match hmodel::host_call(&host_name(op), &hargs, io)? {
+        | hmodel::HOut::Ret(v) => HostOut::Ret(from_hv(v)),
+        | hmodel::HOut::Select(i, vs) => HostOut::Select(args[i].clone(), vs.into_iter().map(from_hv).collect()),
+        | hmodel::HOut::Exit(c) => HostOut::Exit(c),
+        | hmodel::HOut::Trap => HostOut::Trap,
+        | hmodel::HOut::Undetermined(w) => HostOut::Undetermined(w),
     })
 }
 
@@ -291,7 +236,7 @@ enum Ctl<'a> {
 
 /// Run a program's main computation.
 pub fn run<'a>(prog: &'a Program, stdin: &[u8], fuel: u64) -> RRun {
-    let mut io = Io { stdin, pos: 0, out: vec![] };
+    let mut io = Io::new(stdin);
     let mut stack: Vec<Frame<'a>> = vec![];
     let mut ctl = Ctl::Eval(&prog.main, Env::new());
     let mut steps = 0u64;
